@@ -1,20 +1,20 @@
 SPECIFICATION Spec
 CONSTANTS
   Validators = {1, 2}
-  SlotSpace = {2, 3}
-  Nows = {2, 3, 6}
-  Committees = {0}
-  Sizes = {8}
+  SlotSpace = {3}
+  Nows = {2, 3}
+  Committees = {0, 1}
+  Sizes = {8, 16}
   Targets = {2}
-  HVals = {0, 1}
+  HVals = {4}
   HMod = 8
   MaxDuties = 2
   MaxSubs = 1
   SPE = 2
   Ep = 1
-  MaxRefresh = 2
-  MaxChanges = 2
-  MaxHeld = 0
-  SignerMayFail = TRUE
+  MaxRefresh = 1
+  MaxChanges = 1
+  MaxHeld = 1
+  SignerMayFail = FALSE
 INVARIANTS TypeOK AllFutureSubscribed AggregatorRuleExact SubscriptionHistoryIndependent InfoPrefersAggregator InfoInForceComplete EveryAggregatorCommitteeScheduled NoAggregationForPastSlot
 CHECK_DEADLOCK FALSE
